@@ -33,6 +33,9 @@ int main(void) {
 	{ long big[40] = { [39] = 1 }; long s = 0; int i; for (i = 0; i < 40; ++i) s += big[i] * (i + 1); P(s); char cbuf[37] = { 1 }; int t = 0; for (i = 0; i < 37; ++i) t += cbuf[i]; P(t); struct { char a; long b; char c; } pad = { 1, 2, 3 }; P(pad.a + pad.b + pad.c); short sa[7] = { [6] = -1 }; P(sa[0] + sa[5] + sa[6]); }
 	{ struct { char s[6]; struct P p; char t[4]; } o = { .s[0] = 'x', .s[5] = 'z', .s = "hello", .p.x = 1, .p.y = 2, .p = pv, .t[0] = 'q', .t[3] = 'r', .t = "abcd" }; dump(o.s, 6); P(o.p.x); P(o.p.y); dump(o.t, 4);
 	  static struct { char s[6]; unsigned short w[4]; } so = { .s[0] = 'x', .s[5] = 'z', .s = "hello", .w[1] = 7, .w[3] = 9, .w = u"abc" }; dump(&so, sizeof so); }
+	{ unsigned short lw16[3] = u"abc"; unsigned lw32[2] = U"xy"; __typeof__(L'a') lwl[4] = L"wxyz"; unsigned char l8[2] = u8"pq"; struct { unsigned short w[2]; unsigned char guard; } lst = { u"mn", 7 };
+	  unsigned lw32z[3] = U"xy"; unsigned short lw16e[1] = u"";
+	  dump(lw16, sizeof lw16); dump(lw32, sizeof lw32); dump(lwl, sizeof lwl); dump(l8, sizeof l8); dump(lst.w, sizeof lst.w); P(lst.guard); dump(lw32z, sizeof lw32z); dump(lw16e, sizeof lw16e); }
 	{ struct AN { int a; struct { int b, c; }; int d; int e; }; static struct AN n1 = { .b = 1, 2, 3 }; static struct AN n2 = { 5, .c = 1, 3 }; struct AN n3 = { .b = 1, 2, 3 }; struct AN n4 = { 5, .c = 1, 3 };
 	  struct { struct { struct { int x, y; }; int z; }; int w; } n5 = { .y = 1, 2, 3 }; struct { int a; union { int b; char c; }; int d; } n6 = { .b = 7, 8 };
 	  dump(&n1, sizeof n1); dump(&n2, sizeof n2); P(n3.a); P(n3.b); P(n3.c); P(n3.d); P(n3.e); P(n4.a); P(n4.b); P(n4.c); P(n4.d); P(n4.e); P(n5.x); P(n5.y); P(n5.z); P(n5.w); P(n6.a); P(n6.b); P(n6.d); }
